@@ -15,6 +15,10 @@ pub enum MemFn {
     Utf16ToStrPartial,
     Latin1ToUtf8Partial,
     Latin1ToStrPartial,
+    /// the non-partial wrappers: whole source, destination of the documented
+    /// sufficient size (the offered capacity is raised to it)
+    Utf16ToStr,
+    Latin1ToStr,
 }
 
 impl MemFn {
@@ -24,16 +28,26 @@ impl MemFn {
             MemFn::Utf16ToStrPartial => "convert_utf16_to_str_partial",
             MemFn::Latin1ToUtf8Partial => "convert_latin1_to_utf8_partial",
             MemFn::Latin1ToStrPartial => "convert_latin1_to_str_partial",
+            MemFn::Utf16ToStr => "convert_utf16_to_str",
+            MemFn::Latin1ToStr => "convert_latin1_to_str",
         }
     }
     pub fn from_name(s: &str) -> Option<MemFn> {
-        [MemFn::Utf16ToUtf8Partial, MemFn::Utf16ToStrPartial, MemFn::Latin1ToUtf8Partial, MemFn::Latin1ToStrPartial].into_iter().find(|f| f.name() == s)
+        [MemFn::Utf16ToUtf8Partial, MemFn::Utf16ToStrPartial, MemFn::Latin1ToUtf8Partial, MemFn::Latin1ToStrPartial, MemFn::Utf16ToStr, MemFn::Latin1ToStr].into_iter().find(|f| f.name() == s)
     }
     pub fn src16(self) -> bool {
-        matches!(self, MemFn::Utf16ToUtf8Partial | MemFn::Utf16ToStrPartial)
+        matches!(self, MemFn::Utf16ToUtf8Partial | MemFn::Utf16ToStrPartial | MemFn::Utf16ToStr)
     }
     pub fn to_str(self) -> bool {
-        matches!(self, MemFn::Utf16ToStrPartial | MemFn::Latin1ToStrPartial)
+        matches!(self, MemFn::Utf16ToStrPartial | MemFn::Latin1ToStrPartial | MemFn::Utf16ToStr | MemFn::Latin1ToStr)
+    }
+    /// documented sufficient destination length for the non-partial wrappers
+    pub fn whole(self, src_len: usize) -> Option<usize> {
+        match self {
+            MemFn::Utf16ToStr => Some(src_len * 3),
+            MemFn::Latin1ToStr => Some(src_len * 2),
+            _ => None,
+        }
     }
 }
 
@@ -82,6 +96,8 @@ fn one_call(func: MemFn, src: &[u16], offer: &Offer, cap: usize, fill: u8, stale
         MemFn::Utf16ToStrPartial => encoding_rs::mem::convert_utf16_to_str_partial(g16.slice(), std::str::from_utf8_mut(g.slice_mut()).expect("harness filler")),
         MemFn::Latin1ToUtf8Partial => encoding_rs::mem::convert_latin1_to_utf8_partial(g8.slice(), g.slice_mut()),
         MemFn::Latin1ToStrPartial => encoding_rs::mem::convert_latin1_to_str_partial(g8.slice(), std::str::from_utf8_mut(g.slice_mut()).expect("harness filler")),
+        MemFn::Utf16ToStr => (src.len(), encoding_rs::mem::convert_utf16_to_str(g16.slice(), std::str::from_utf8_mut(g.slice_mut()).expect("harness filler"))),
+        MemFn::Latin1ToStr => (src.len(), encoding_rs::mem::convert_latin1_to_str(g8.slice(), std::str::from_utf8_mut(g.slice_mut()).expect("harness filler"))),
     }));
     let mut c = MCall { read: 0, written: 0, out: Vec::new(), panicked: None, viols: Vec::new() };
     let whole_valid = std::str::from_utf8(g.slice()).is_ok();
@@ -172,7 +188,10 @@ pub fn drive_mem(spec: &MemSpec, replicas: bool, source: &mut dyn OpSource) -> M
                     continue;
                 }
                 let pending = &spec.src[consumed..visible];
-                let cap = offer.cap.max(min);
+                let cap = match spec.func.whole(pending.len()) {
+                    Some(need) => need.max(offer.cap.min(need + 24)),
+                    None => offer.cap.max(min),
+                };
                 if cap == min {
                     run.faults.min_capacity += 1;
                 }
